@@ -390,10 +390,49 @@ def r05_8(run, model):
     run.floor("functions introducing parameters examined", n, 2)
 
 
+def r05_9(run, model):
+    run.rule("R05.9", "the innermost binder of a name wins over a constructor of the same name: wherever resolve_expr turns an identifier into a "
+                      "constructor (constructor_path_for on an EPath / the function of an ECall; the EConstr the lowering produced by name "
+                      "alone), the local environment is consulted first")
+    NR = "crates/compiler/src/typer/name_resolution.rs"
+    f = model.fn("resolve_expr", NR)
+    local_lookups = {"rfind"}
+    for g in model.fns(NR):
+        if g.body is not None and any(c["k"] == "MethodCall" and c["method"] == "rfind" for c in S.walk(g.body)) and g.name not in ("resolve_expr", "resolve_fn"):
+            params = [p for p in g.params() if not p["self"]]
+            if any("ResolveLocalEnv" in (p["ty"] or "") for p in params):
+                local_lookups.add(g.name)
+    n = 0
+    for iff in S.find(f.body, "If"):
+        ctor = [c for c in S.walk(iff["cond"]) if c["k"] == "MethodCall" and c["method"] == "constructor_path_for"]
+        if not ctor:
+            continue
+        n += 1
+        pos = (ctor[0]["sp"][0], ctor[0]["sp"][1])
+        loc = [c for c in S.walk(iff["cond"]) if c["k"] in ("Call", "MethodCall") and S.callee_name(c) in local_lookups and (c["sp"][0], c["sp"][1]) < pos]
+        par = S.Parents(f.body)
+        arm = next((a for a in par.ancestors(iff) if a["k"] == "Arm"), None)
+        head = re.sub(r"\{.*", "", S.norm_ws(run.facts.text(NR, arm["pat"]["sp"]))) if arm else "?"
+        run.ob("R05.9", f"resolve_expr|{head}: local binders are consulted before constructors", bool(loc), site(NR, iff["sp"]),
+               f"condition: {S.norm_ws(run.facts.text(NR, iff['cond']['sp']))[:110]}",
+               witness="enum Axis { X, Y } fn pick(X: Axis) -> Axis { X } returns Axis::X whatever the argument; "
+                       "struct point { x: int32, y: int32 } fn magnitude(point: point) -> int32 { point.x + point.y } is rejected")
+    ms = list(S.find(f.body, "Match"))
+    arm = next((a for a in ms[0]["arms"] if S.norm_ws(run.facts.text(NR, a["pat"]["sp"])).startswith("ast::Expr::EConstr")), None) if ms else None
+    if arm is None:
+        raise AnalysisIncomplete("resolve_expr: EConstr arm not found")
+    loc = [c for c in S.walk(arm["body"]) if c["k"] in ("Call", "MethodCall") and S.callee_name(c) in local_lookups]
+    run.ob("R05.9", "resolve_expr|ast::Expr::EConstr: local binders are consulted before constructors", bool(loc), site(NR, arm["sp"]),
+           f"local lookups in the arm: {len(loc)} (the lowering marks an identifier as a constructor by its name alone)",
+           witness="fn pick(X: Axis) -> Axis { X } with enum Axis in the same file: the body is the constructor X, the parameter is never read")
+    run.floor("places where resolve_expr asks for a constructor", n, 2)
+
+
 def run(run, model):
     run.try_rule(r05_7, model)
     run.try_rule(r05_6, model)
     run.try_rule(r05_8, model)
+    run.try_rule(r05_9, model)
     run.try_rule(r05_5, model)
     run.try_rule(r05_1, model)
     run.try_rule(r05_2, model)
